@@ -38,6 +38,10 @@ Init == /\ p \in Paths(MaxDepth) /\ gate = FALSE /\ nops = 0
 Appended(s) == /\ ~gate /\ nops < MaxOps /\ nops' = nops + 1
                /\ p' = (IF s = "" THEN p ELSE Append(p, s)) /\ gate' = FALSE
                /\ pret' = [op |-> "appended", seg |-> s, view |-> View(p', FALSE)]
+(* appended with a relative path of several components (what SimBuilderScoped::node does with "a.b") *)
+AppendedPath(q) == /\ ~gate /\ nops < MaxOps /\ nops' = nops + 1
+                   /\ p' = p \o q /\ gate' = FALSE
+                   /\ pret' = [op |-> "appended_path", rel |-> q, view |-> View(p', FALSE)]
 AppendedGate(s) == /\ ~gate /\ nops < MaxOps /\ nops' = nops + 1
                    /\ p' = Append(p, s) /\ gate' = TRUE
                    /\ pret' = [op |-> "appended_gate", seg |-> s, view |-> View(p', TRUE)]
@@ -47,9 +51,10 @@ Parent == /\ nops < MaxOps /\ nops' = nops + 1
              ELSE (p' = Front(p) /\ gate' = FALSE /\ pret' = [op |-> "parent", res |-> "some", view |-> View(p', FALSE)])
 
 Next == (\E s \in Segs \cup {""} : Appended(s)) \/ (\E s \in Segs : AppendedGate(s)) \/ Parent
+        \/ (\E q \in [1..2 -> Segs] : AppendedPath(q))
 Spec == Init /\ [][Next]_pvars
 
 (* sanity: the depth only changes by one; a gate path can only be left through parent *)
-DepthStep == [][Len(p') \in {Len(p) - 1, Len(p), Len(p) + 1}]_pvars
+DepthStep == [][Len(p') \in {Len(p) - 1, Len(p), Len(p) + 1, Len(p) + 2}]_pvars
 GateOnlyLeaf == gate => p # <<>>
 =============================================================================
